@@ -307,7 +307,14 @@ fn exec_op(arena: &'static sync::Arena, tid: usize, op: &Value, next_id: &mut u3
             } else if k == "write" {
               // adversarial 8-byte value at byte offset `at` inside the accessible range (through the handle's pointer)
               let at = op["at"].as_u64().unwrap_or(0);
-              let v = u64::from_str_radix(op["v"].as_str().unwrap(), 16).unwrap();
+              // "vw": [size, next] with -1 = u32::MAX and -3 (BIG) = 0x7FFF_FFFF; or "v": hex string
+              let half = |x: i64| -> u64 {
+                if x == -1 { 0xFFFF_FFFF } else if x == -3 { 0x7FFF_FFFF } else { x as u64 & 0xFFFF_FFFF }
+              };
+              let v = match op.get("vw").and_then(|x| x.as_array()) {
+                Some(p) => (half(p[0].as_i64().unwrap()) << 32) | half(p[1].as_i64().unwrap()),
+                None => u64::from_str_radix(op["v"].as_str().unwrap(), 16).unwrap(),
+              };
               if let Some(p) = h.addr() {
                 if at + 8 <= m[3] {
                   unsafe { std::ptr::write_unaligned((p as *mut u8).add(at as usize) as *mut u64, v) };
@@ -414,6 +421,7 @@ fn run_driver(d: &Value, out: &mut impl Write, workdir: &str) -> bool {
            "mem": rle(arena.memory()), "setup": setup_events})
   )
   .unwrap();
+  out.flush().unwrap();
   // ---- threads: started one at a time, each runs up to its first scheduling point
   let mut joins = Vec::new();
   for t in 0..nthreads {
@@ -463,6 +471,8 @@ fn run_driver(d: &Value, out: &mut impl Write, workdir: &str) -> bool {
     for ev in st.events.drain(..) {
       writeln!(out, "{}", ev).unwrap();
     }
+    // a crash of the process (abort / signal inside the arena) must stay attributable
+    out.flush().unwrap();
     if st.done.iter().all(|x| *x) {
       break;
     }
